@@ -43,7 +43,7 @@ ALPHABET = [
 
 
 # pathway tags are arbitrary hashable labels: strings (also the empty one) and integers counted from zero are what users write
-TAGPOOL = ["t0", "t1", "t2", 0, 1, ""]
+TAGPOOL = ["t0", "t1", "t2", 0, 1, "", "1", "0", 1.0]
 
 
 def pick_tag(rng, n=len(TAGPOOL)):
